@@ -101,6 +101,13 @@ void vrt_supervisor_start(void);
 void vrt_supervisor_stop(void);
 void vrt_dump_actors(FILE *f);
 
+/* A call that must return by itself (nothing it could wait for): if it has not
+ * returned after a very generous real-time bound the supervisor reports a
+ * violation with key "hang:call-did-not-return:<what>".  Only for calls made in
+ * uncontended, single-threaded phases. */
+void vrt_call_begin(const char *what);
+void vrt_call_end(void);
+
 /* ---------- delay injection at named runtime points ---------- */
 /* profile: "off" | "uniform" | "hammer:<id>[,<id>...]" | "heavy" */
 void vrt_delay_profile(const char *profile);
